@@ -78,7 +78,11 @@ def replay_chunk(behs):
                     else:
                         before = {m for m in MODNAMES if m in sys.modules}
                         n0 = len(verif_spy.LOG)
-                        importlib.import_module(".".join(a["mod"]))
+                        try:
+                            importlib.import_module(".".join(a["mod"]))
+                        except BaseException as e:  # noqa - importing one of these modules never fails
+                            obs.append("import raised " + type(e).__name__)
+                            continue
                         new = [m for m in MODNAMES if m in sys.modules and m not in before]
                         o = {}
                         for m in new:
